@@ -274,3 +274,61 @@ fn pair_shrink_to_fit() {
 // clone / clone_from take a hashbrown map: three harnesses with a real one-entry map did not finish
 // symbolic execution within 15 minutes each (unwind 20 is needed for the FNV and SIMD group
 // loops), so these two functions have no bounded twin; they are decided by unit V-alloc only.
+
+// ------------------------------------------------------------------ equality (C16)
+/// exec specification of allocator equality: same slot table (generation, activity, archetype
+/// bytes, row) and same free list, in order
+fn spec_eq(a: &Allocator<R>, b: &Allocator<R>) -> bool {
+    let mut eq = a.slots.len() == b.slots.len() && a.free.len() == b.free.len();
+    let mut i = 0;
+    while eq && i < a.slots.len() {
+        eq = eq && a.slots[i].generation == b.slots[i].generation;
+        match (a.slots[i].location, b.slots[i].location) {
+            (None, None) => {}
+            (Some(la), Some(lb)) => {
+                eq = eq && la.index == lb.index && unsafe { la.identifier.as_slice() == lb.identifier.as_slice() };
+            }
+            _ => eq = false,
+        }
+        i += 1;
+    }
+    i = 0;
+    while eq && i < a.free.len() {
+        eq = eq && a.free[i] == b.free[i];
+        i += 1;
+    }
+    eq
+}
+
+fn check_eq(ka: usize, kb: usize) {
+    let bits_a: u8 = kani::any();
+    let bits_b: u8 = kani::any();
+    kani::assume(bits_a < 4 && bits_b < 4);
+    let ida = ident(bits_a);
+    let idb = ident(bits_b);
+    let a = build(ka, unsafe { ida.as_ref() });
+    let b = build(kb, unsafe { idb.as_ref() });
+    let e = a == b;
+    assert!(e == spec_eq(&a, &b), "C16: allocators are equal iff slot tables (generation, location) and free lists are equal");
+    assert!((b == a) == e, "C16: symmetric");
+    assert!(a == a, "C16: reflexive");
+}
+
+#[kani::proof]
+#[kani::unwind(26)]
+fn pair_eq_same_shape() {
+    check_eq(3, 3);
+}
+
+#[kani::proof]
+#[kani::unwind(26)]
+fn pair_eq_free_order_differs() {
+    check_eq(3, 4);
+}
+
+#[kani::proof]
+#[kani::unwind(26)]
+fn pair_eq_small() {
+    check_eq(1, 1);
+    check_eq(1, 2);
+}
